@@ -259,6 +259,9 @@ func c04Probe(k *core.Case, e entry, in []byte, tail []byte, cell string) {
 		oc = "ok"
 	}
 	k.Distinct(e.name + "|" + oc + "|" + cell)
+	if k.WantSample() && len(in) > 0 && len(in) < 120 && (k.Index%7 == 3 || !firstErr) {
+		k.Sample(M{"entry": e.name, "input": core.Hex(in), "outcome": oc, "cell": cell, "placements": mon.NPlacements + 1})
+	}
 }
 
 func clipS(s string, n int) string {
